@@ -37,6 +37,7 @@ type Exec struct {
 	specEq     bool
 	curCallArgs []Value
 	curCallRecv Value
+	curCallTypes []types.Type
 	ReplayArgs []TV
 	ReplayLen  []bool
 	ReplayFn   string
@@ -509,6 +510,10 @@ func (ex *Exec) doAlloc(st *State, fr *Frame, a *ssa.Alloc) {
 	p := objPtr(ref, t)
 	fr.Regs[a] = p
 	ex.storeObj(st, ref, p.Class, t, zeroValue(t))
+	if a.Comment != "" && !strings.HasPrefix(a.Comment, "complit") && !strings.HasPrefix(a.Comment, "varargs") && !strings.HasPrefix(a.Comment, "slicelit") && !strings.HasPrefix(a.Comment, "new") && !strings.HasPrefix(a.Comment, "makeslice") {
+		// a named local that lives on the heap because a closure captures it or its address is taken
+		st.LocalCells = append(st.LocalCells, localCell{ref, p.Class})
+	}
 }
 
 // ---------- pointers, loads, stores ----------
